@@ -3,6 +3,7 @@ import re
 from mir import fmt, walk, strip_refs, norm, callee_names, call_target
 from binser import deep, for_loops, enclosing_loops, rpo_index, root_of, affine, fmt_affine, len_atom, mutations_of
 from flow import enum_paths, PathLimit
+from c04 import is_err_term
 
 EXPLANATION = ("Builder emission sequence (header and per-entry record) and parser read sequence are extracted from the "
                "MIR and compared field by field: order, width, endianness, constant; record/header size constants "
@@ -388,6 +389,8 @@ def run(facts, rep, ctx):
     except PathLimit:
         rep.inconc(R5, "parse: too many paths")
         return
+    R6 = rep.rule("R15.6", "an entry is rejected exactly when address + size exceeds the image (empty files at the very end are accepted)", floor=1)
+    bound_decision(facts, rep, R6, par, ppaths)
     best = None
     for p in ppaths:
         evs = [e for e in p.events if e["k"] == "call" and e["callee"]]
@@ -433,3 +436,93 @@ def run(facts, rep, ctx):
         rep.ok(R5, {"result": "IndexMap filled in record order with (name, body)"})
     else:
         rep.violation(R5, par.name, "result", "result type %s / inserted (%s, %s)" % (rt[:50], fmt(k)[:30], fmt(v)[:30]), pw)
+
+
+def bound_decision(facts, rep, R6, par, ppaths):
+    """An entry is rejected exactly when its recorded range [address, address + size) leaves the image.  The
+    comparisons on the paths through one iteration of the extraction loop are evaluated at class representatives
+    (address, size, image length); reads are assumed to succeed."""
+    A, Z, L = "file_address", "file_size_unpadded", "len"
+
+    def val(t, env):
+        t = strip_refs(t)
+        while t[0] in ("cast", "deref"):
+            t = strip_refs(t[1])
+        if t[0] == "const" and isinstance(t[1], int) and not isinstance(t[1], bool):
+            return t[1]
+        if t[0] == "field" and t[2] in (A, Z):
+            return env[t[2]]
+        if t[0] == "call" and t[1].rsplit("::", 1)[-1] == "len" and t[2] and strip_refs(t[2][0])[0] == "param":
+            return env[L]
+        if t[0] == "un" and t[1] == "PtrMetadata":
+            return env[L]
+        if t[0] == "call" and t[1].rsplit("::", 1)[-1] in ("from", "into") and len(t[2]) == 1:
+            return val(t[2][0], env)
+        if t[0] == "field" and t[3] == 0 and t[1][0] == "bin" and t[1][1].endswith("WithOverflow"):
+            t = ("bin", t[1][1].replace("WithOverflow", ""), t[1][2], t[1][3])
+        if t[0] == "bin":
+            a, b = val(t[2], env), val(t[3], env)
+            if a is None or b is None:
+                return None
+            op = t[1].replace("WithOverflow", "").replace("Unchecked", "")
+            try:
+                return {"Add": a + b, "Sub": a - b, "Mul": a * b, "Eq": a == b, "Ne": a != b, "Lt": a < b, "Le": a <= b, "Gt": a > b, "Ge": a >= b}.get(op)
+            except TypeError:
+                return None
+        if t[0] == "call" and t[1].rsplit("::", 1)[-1] in ("checked_add", "saturating_add") and len(t[2]) == 2:
+            a, b = val(t[2][0], env), val(t[2][1], env)
+            return None if a is None or b is None else a + b
+        return None
+
+    def mentions(t):
+        return any(x[0] == "field" and x[2] in (A, Z) for x in walk(t))
+    # paths through the loop body: those whose conditions mention the entry's fields
+    cands = [p for p in ppaths if any(mentions(c[1]) for c in p.conds)]
+    if not cands:
+        rep.inconc(R6, "parse: no comparison on the entry's address / size found")
+        return
+    grid = [(a, z, l) for l in (0, 32, 64) for a in (0, 31, 32, 33, 63, 64, 65, 96) for z in (0, 1, 31, 32, 33, 64)]
+    bad = {}
+    decided = 0
+    for (a, z, l) in grid:
+        env = {A: a, Z: z, L: l}
+        valid = a + z <= l
+        rejected = accepted = False
+        undec = False
+        for p in cands:
+            holds = True
+            for (bb, term, vals, neg, dty) in p.conds:
+                if not mentions(term) or dty != "bool":
+                    continue
+                v = val(term, env)
+                if v is None:
+                    holds = None
+                    break
+                if (int(bool(v)) in vals) == neg:
+                    holds = False
+                    break
+            if holds is None:
+                undec = True
+                continue
+            if not holds:
+                continue
+            is_err = p.end == "ret" and is_err_term(p.ret) is True and any(x[0] == "agg" and x[3] == "ArchiveTooSmall" for x in walk(p.ret))
+            if is_err:
+                rejected = True
+            elif p.end in ("loop", "ret"):
+                accepted = True
+        if undec:
+            continue
+        decided += 1
+        if valid and rejected and not accepted:
+            bad.setdefault("rejects-valid", (a, z, l))
+        if not valid and accepted and not rejected:
+            bad.setdefault("accepts-invalid", (a, z, l))
+    if decided < 20:
+        rep.inconc(R6, "parse: the range check could be evaluated at only %d of %d class representatives" % (decided, len(grid)))
+    for kd, (a, z, l) in sorted(bad.items()):
+        rep.violation(R6, par.name, kd, "parse %s: an entry with file address %d and size %d in an image of %d bytes (specified: rejected exactly when address + size exceeds the image; an empty file may sit at the very end)" % (
+            kd.replace("-", " a ") + " entry", a, z, l), "%s:%s" % (par.file, par.line))
+    if not bad and decided >= 20:
+        rep.ok(R6, {"fn": par.name, "range_check": "address + size <= image length", "classes": decided})
+
